@@ -1,0 +1,16 @@
+//go:build verif
+
+// Contracts for package host (comment-only; read by /verif's tibcvc, never compiled into the module).
+// Key builders: each builder is declared to produce the byte representation of one constructor of the
+// ghost Key datatype. That the real byte strings are injective and family-disjoint is obligation group KEYS.
+package host
+
+//@ keyfn NextSequenceSendKey(s, d) = nextSend(s: str, d: str)
+//@ keyfn PacketCommitmentKey(s, d, n) = commit(s: str, d: str, n: u64)
+//@ keyfn PacketAcknowledgementKey(s, d, n) = ack(s: str, d: str, n: u64)
+//@ keyfn PacketReceiptKey(s, d, n) = receipt(s: str, d: str, n: u64)
+//@ keyfn CleanPacketCommitmentKey(s, d) = cleanPt(s: str, d: str)
+//@ keyfn MaxAckSeqKey(s, d) = maxAck(s: str, d: str)
+//@ keyfn RoutingRulesKey() = routingRules()
+//@ subkeyfn ClientStateKey() = clientState()
+//@ subkeyfn ConsensusStateKey(h) = consState(h.GetRevisionNumber(): u64, h.GetRevisionHeight(): u64)
